@@ -44,7 +44,7 @@ Definition codec_premises_b2 (verify : bytes -> bytes -> bytes -> res unit) (sig
            (vid : bytes) : Prop := codec_premises verify sign vid.
 
 Theorem codec_b2 : forall verify sign authic vids c n mid vid body,
-  codec_premises verify sign vid ->
+  (auth c = true -> codec_premises verify sign vid) ->
   kind_of c <> KAck -> (authic = true -> auth c = true) ->
   n < 16777216 -> length mid = 24%nat -> is_b64 mid = true ->
   (auth c = true -> length vid = 44%nat /\ is_b64 vid = true) ->
@@ -79,7 +79,7 @@ Proof.
   set (Stxt := if auth c then sign vid (H ++ body) else []).
   assert (HS : enc (dec Stxt) = Stxt /\ length (dec Stxt) = b2z (az c)).
   { unfold Stxt, az. destruct (auth c).
-    - destruct (Hp (H ++ body)) as (L88 & B88 & _). destruct (enc_dec 22 _ L88 B88) as [E1 E2].
+    - destruct (Hp eq_refl (H ++ body)) as (L88 & B88 & _). destruct (enc_dec 22 _ L88 B88) as [E1 E2].
       split; [exact E1|]. rewrite E2. reflexivity.
     - split; reflexivity. }
   destruct HS as [ES LS].
@@ -123,7 +123,7 @@ Proof.
   unfold finish. destruct (kind_of c) eqn:K; [| |contradiction].
   - destruct (auth c) eqn:A.
     + assert (Vv : V = vid). { unfold V. destruct c; cbn in *; try discriminate; reflexivity. }
-      rewrite Vv. unfold Stxt. destruct (Hp (H ++ body)) as (L88 & _ & Ver).
+      rewrite Vv. unfold Stxt. destruct (Hp eq_refl (H ++ body)) as (L88 & _ & Ver).
       destruct (sign vid (H ++ body)) as [|s0 sg] eqn:Sg; [cbn in L88; discriminate|].
       rewrite Ver. cbn [bind]. destruct (Hv eq_refl) as [L44 _].
       destruct vid as [|v0 vid']; [cbn in L44; discriminate|].
@@ -134,7 +134,7 @@ Proof.
       rewrite Vn, Z. unfold Stxt. cbn [bind]. reflexivity.
   - assert (Vn : V = []). { unfold V. destruct c; cbn in *; try discriminate; reflexivity. }
     rewrite Vn. specialize (Hvm eq_refl). destruct (auth c) eqn:A.
-    + rewrite Hvm. unfold Stxt. destruct (Hp (H ++ body)) as (L88 & _ & Ver).
+    + rewrite Hvm. unfold Stxt. destruct (Hp eq_refl (H ++ body)) as (L88 & _ & Ver).
       destruct (sign vid (H ++ body)) as [|s0 sg] eqn:Sg; [cbn in L88; discriminate|].
       rewrite Ver. cbn [bind]. reflexivity.
     + unfold Stxt. cbn [bind]. reflexivity.
